@@ -419,6 +419,11 @@ def run(ctx):
     for fam in SA:
         msgpath.server_ack(ctx, fam, 'C05.R5', 'C02.R3')
         msgpath.client_ack(ctx, fam, 'C09.R2', 'C02.R3')
+    ctx.rule('C06.R5', 'ack ids come from one counter per client / '
+             'namespace, so a result reaches the callback it was requested '
+             'for (shared rule)', floor=8)
+    msgpath.counter_discipline(ctx, 'BaseManager', 'sid', 'C06.R5')
+    msgpath.counter_discipline(ctx, 'BaseClient', 'namespace', 'C06.R5')
     ctx.rule('C02.R4', 'call() result table at 4 sites', floor=28)
     for cname in ('Server', 'AsyncServer', 'Client', 'AsyncClient'):
         call_result(ctx, cname, 'C02.R4')
